@@ -219,8 +219,13 @@ def run(ctx):
     # schema variants by index mod 8: 1,4,7 subtypes of the inverted entity with several supertypes (rel first / second);
     # 2,4 targets inheriting inverses from a grand-/second supertype; 2,6 diamond and double-diamond target hierarchies (inverse declared at the
     # top and in the middle, aggregate and single-valued); 3 complex referrers; 5 a referrer redeclaring the inverted attribute
-    schemas = [G.schema_c11(ctx.rng, i, ninv=(i % 3) + 1, complex_ref=(i % 8 == 3), mi=(i % 8 in (1, 4, 7)),
-                            deep=(i % 8 in (2, 4)), redecl=(i % 8 == 5), diamond=(i % 8 in (2, 6))) for i in range(nschemas)]
+    # 2-4 inverse attributes per target entity; one of them inverts an attribute the inverted entity INHERITS (one level up, two
+    # levels up, through a second supertype), placed first / in the middle / last among its siblings
+    def inh_of(i):
+        ninv = 2 + (i % 3)
+        return ninv, ((i + i // 2) % ninv, ["one-up", "second-super", "two-up"][i % 3])
+    schemas = [G.schema_c11(ctx.rng, i, ninv=inh_of(i)[0], complex_ref=(i % 8 == 3), mi=(i % 8 in (1, 4, 7)),
+                            deep=(i % 8 in (2, 4)), redecl=(i % 8 == 5), diamond=(i % 8 in (2, 6)), inh=inh_of(i)[1]) for i in range(nschemas)]
     t0 = time.time()
     with cf.ThreadPoolExecutor(max_workers=8) as ex:
         exes = list(ex.map(lambda s: C10.build_schema(b, s, ctx.work), schemas))
